@@ -42,24 +42,26 @@ Hist(h) == CASE h = "never"       -> {}
 UpNames == {"always", "gap", "none"}
 UpHist(u) == CASE u = "always" -> Cells [] u = "gap" -> Cells \ {4, 5} [] u = "none" -> {}
 
-Shapes == {"bare", "eq", "re", "neq", "nolabel", "alerts"}
+Shapes == {"bare", "eq", "nm", "re", "neq", "nolabel", "alerts"}    \* nm: {__name__="m", l="v1"}
 RuleSets == {"none", "rr_same", "rr_other", "alert_same", "alert_other"}
 Exempts == {"none", "disable", "disable_other", "snooze", "snooze_expired", "ignore", "ignore_other", "minage1h", "minage3h"}
 
-\* how the selector is used in the rule expression: `sel > 0`, `sum(sel) > 0`, `rate(sel[5m]) > 0`.
-\* The check extracts the selector (getNonFallbackSelectors), so the wrapper must not change anything.
-Wraps == {"cmp", "sum", "rate"}
+\* how the selector is used in the rule expression: `sel > 0`, `sum(sel) > 0`, `rate(sel[5m]) > 0`,
+\* `sel * zf > 0`, `zf * sel > 0` where zf is a second metric that never existed (so the rule has two
+\* selectors and the other one always earns a Bug of its own). The check extracts the selectors
+\* (getNonFallbackSelectors) in source order.
+Wraps == {"cmp", "sum", "rate", "mul_first", "mul_second"}
 
 Scenario == [shape : Shapes, ha : HistNames, hb : HistNames, up : UpNames, rules : RuleSets, exempt : Exempts, wrap : Wraps]
 
 -----------------------------------------------------------------------------
 (* What the server holds, per selector                                     *)
 
-SelText(sh) == CASE sh = "bare" -> "M" [] sh = "eq" -> "M{l='v1'}" [] sh = "re" -> "M{l=~'v.*'}"
+SelText(sh) == CASE sh = "bare" -> "M" [] sh = "eq" -> "M{l='v1'}" [] sh = "nm" -> "{__name__='M',l='v1'}" [] sh = "re" -> "M{l=~'v.*'}"
                  [] sh = "neq" -> "M{l!='v1'}" [] sh = "nolabel" -> "M{k='v'}" [] sh = "alerts" -> "ALERTS{alertname='X'}"
 \* cells in which the selector returns something (the alerts shape stores both series with alertname="X")
 SelCells(sc) == CASE sc.shape \in {"bare", "re", "alerts"} -> Hist(sc.ha) \cup Hist(sc.hb)
-                  [] sc.shape = "eq"      -> Hist(sc.ha)
+                  [] sc.shape \in {"eq", "nm"} -> Hist(sc.ha)
                   [] sc.shape = "neq"     -> Hist(sc.hb)
                   [] sc.shape = "nolabel" -> {}
 MetricCells(sc) == Hist(sc.ha) \cup Hist(sc.hb)      \* the bare metric: stripLabels(selector)
@@ -107,22 +109,25 @@ Orphans(sc)   == IF sc.exempt = "disable_other" THEN {[class |-> "orphan-comment
 P(class, sev) == [class |-> class, sev |-> sev]
 Out(probes, problems, sc) == [probes |-> probes, problems |-> problems \cup Orphans(sc)]
 
-PosLabel(sh) == CASE sh \in {"eq", "re"} -> "l" [] sh = "nolabel" -> "k" [] OTHER -> "-"   \* labelNames / positive matcher
+PosLabel(sh) == CASE sh \in {"eq", "nm", "re"} -> "l" [] sh = "nolabel" -> "k" [] OTHER -> "-"   \* labelNames / positive matcher
 \* series with the label of the positive matcher (for absent(m{label=~".+"}))
 WithLabel(sc) == IF PosLabel(sc.shape) = "l" THEN MetricCells(sc) ELSE {}
 \* series matching the single positive matcher alone (stage 5..7 query)
-MatchCells(sc) == CASE sc.shape = "eq" -> Hist(sc.ha) [] sc.shape = "re" -> MetricCells(sc) [] OTHER -> {}
+MatchCells(sc) == CASE sc.shape \in {"eq", "nm"} -> Hist(sc.ha) [] sc.shape = "re" -> MetricCells(sc) [] OTHER -> {}
+\* ... rendered with the metric name in front (labelSelector: Name = metricName, the one matcher)
+MatchText(sh) == CASE sh \in {"eq", "nm"} -> "M{l='v1'}" [] sh = "re" -> "M{l=~'v.*'}" [] sh = "nolabel" -> "M{k='v'}" [] OTHER -> "-"
 
 I(q) == "i:" \o q
 R(q) == "r:" \o q
 
-Verdict(sc) ==
+\* the selector under test; prior = an earlier selector of the same rule has already produced a problem
+Target(sc, prior) ==
   LET sel == SelText(sc.shape)
       lbl == PosLabel(sc.shape)
       p1  == << I("count(" \o sel \o ")") >>
       p2  == p1 \o << R("count(UP)"), R("count(M)") >>
       p3  == p2 \o << R("absent(M{" \o lbl \o "=~'.+'})") >>
-      p4  == p3 \o << R("count(" \o sel \o ")") >>
+      p4  == p3 \o << R("count(" \o MatchText(sc.shape) \o ")") >>
       trs == Ranges(MetricCells(sc))
       baseGaps == GapRuns(MetricCells(sc), sc)
       \* stage 3: absent(m{label=~".+"})
@@ -144,7 +149,8 @@ Verdict(sc) ==
        THEN IF HasRR(sc) THEN Out(p2, {P("rr", "Information")}, sc) ELSE Out(p2, {P("never", Sev(sc))}, sc)
   ELSE IF labelNever THEN Out(p3, {P("label-never", "Bug")}, sc)                \* 3. label never there
   ELSE LET pp == IF lbl = "-" THEN p2 ELSE p3 IN
-  IF Cardinality(trs) = 1 /\ Oldest(trs) <= Step /\ Newest(trs) < Lookback - Step      \* 4. was always there, now gone
+  IF prior THEN Out(pp, {}, sc)          \* `if len(problems) > 0 { continue }` looks at the problems of the whole rule
+  ELSE IF Cardinality(trs) = 1 /\ Oldest(trs) <= Step /\ Newest(trs) < Lookback - Step      \* 4. was always there, now gone
   THEN IF Newest(trs) >= Lookback - MinAge(sc) THEN Out(pp, {}, sc) ELSE Out(pp, {P("disappeared", Sev(sc))}, sc)
   ELSE LET valueProblem ==                                                            \* 5..7: the positive matcher alone
              IF lbl = "-" THEN {}
@@ -160,6 +166,23 @@ Verdict(sc) ==
        IF valueProblem # {} THEN Out(last, valueProblem, sc)
        ELSE IF trs # {} /\ baseGaps # {} THEN Out(last, {P("sometimes", "Warning")}, sc)  \* 8. sometimes there
        ELSE Out(last, {}, sc)
+
+\* the other selector of the mul_* wrappers: a metric that never existed and that nothing exempts
+ZFProbes == << I("count(ZF)"), R("count(UP)"), R("count(ZF)") >>
+ZFProblems == {P("never", "Bug")}
+RECURSIVE DedupFrom(_, _, _)
+DedupFrom(sq, k, acc) == IF k > Len(sq) THEN acc
+                         ELSE DedupFrom(sq, k + 1, IF \E i \in 1..Len(acc) : acc[i] = sq[k] THEN acc ELSE Append(acc, sq[k]))
+Dedup(sq) == DedupFrom(sq, 1, << >>)       \* identical range queries are answered by the client's cache
+
+Verdict(sc) ==
+  CASE sc.wrap = "mul_first"  -> LET t == Target(sc, FALSE) IN
+                                 [probes |-> Dedup(t.probes \o ZFProbes), problems |-> t.problems \cup ZFProblems]
+    [] sc.wrap = "mul_second" -> LET t == Target(sc, TRUE) IN
+                                 [probes |-> Dedup(ZFProbes \o t.probes), problems |-> t.problems \cup ZFProblems]
+    [] OTHER -> Target(sc, FALSE)
+\* problems that point at the selector under test (the mul_* wrappers add a Bug for the other selector)
+OnTarget(sc) == Target(sc, sc.wrap = "mul_second").problems \ Orphans(sc)
 
 -----------------------------------------------------------------------------
 (* Doc side: the two documented promises (docs/checks/promql/series.md)    *)
@@ -201,8 +224,8 @@ Eval ==        /\ pc = "eval" /\ out' = Verdict(sc) /\ pc' = "done" /\ UNCHANGED
 Next == ChooseData \/ ChooseRules \/ Eval
 Spec == Init /\ [][Next]_vars
 
-Inv_P1 == pc = "done" => P1(ReturnsNow(sc), out.problems)
-Inv_P2 == pc = "done" => P2(NoSample(sc), sc, out.problems)
+Inv_P1 == pc = "done" => P1(ReturnsNow(sc), OnTarget(sc))
+Inv_P2 == pc = "done" => P2(NoSample(sc), sc, OnTarget(sc))
 \* not vacuous: both antecedents and every class occur (checked by the driver through EmitCase counts)
 
 CellSeq(S) == LET RECURSIVE F(_) F(k) == IF k > 15 THEN << >> ELSE (IF k \in S THEN << k >> ELSE << >>) \o F(k + 1) IN F(-3)
